@@ -183,9 +183,15 @@ def run_one(s):
                     pe["normals_exc"] = "after:%s/original:%s" % (ra_[1] if len(ra_) > 1 and ra_[0] != "ok" else ra_[0], rb_[1] if len(rb_) > 1 and rb_[0] != "ok" else rb_[0])
             # a user-set volume belongs to the domain: it survives the binding (primitives only)
             pe["uservol_pe"], pe["uservol_pe_exc"] = [], "none"
-            if e["k"] in ("interval", "circle", "par", "tri", "sphere"):
+            if e["k"] in ("interval", "circle", "par", "tri", "sphere", "and", "union", "cut"):
                 d3 = U.build(e)
-                r6 = watched(lambda: (d3.set_volume(5.0), d3(**{n: float(v) for n, v in bind.items()}).volume(U.mk_params(rest, rrows)))[1])
+                # (Boolean combinations: the volume is given as a FUNCTION of a variable that the call fixes)
+                uv = 5.0
+                if e["k"] in ("and", "union", "cut"):
+                    ns_ = {}
+                    exec("def uv(%s):\n    return 5.0 + 0.0 * %s\n" % (sorted(bind)[0], sorted(bind)[0]), ns_)
+                    uv = ns_["uv"]
+                r6 = watched(lambda: (d3.set_volume(uv), d3(**{n: float(v) for n, v in bind.items()}).volume(U.mk_params(rest, rrows)))[1])
                 pe["uservol_pe"] = fxv(r6[1], VS) if r6[0] == "ok" else []
                 pe["uservol_pe_exc"] = "" if r6[0] == "ok" else (r6[1] if len(r6) > 1 else "hang")
             # PlotSampler (plots and animations): it binds the other variables itself, plot_domain(**values), and samples the
